@@ -28,6 +28,8 @@ from .. import chooser, core, impl, probes
 from . import common
 
 QUERIES = ["$..*", "$..a", "$..[?@]", "$..[0]"]
+# the limit counts from the node the descendant segment is applied to
+PREFIXED = ["$.a..*", "$[0]..*", "$.*..a", "$[*]..[0]", "$.a.a..*", "$[0][0]..[?@]", "$[?@]..*"]
 
 
 def materialise(g):
@@ -50,13 +52,20 @@ def materialise(g):
     return objs[g["root"] - 1]
 
 
+_COMPILED = {}
+
+
 def outcome(jp, env, q, doc, nondet, cap=400):
-    c = env.compile(q)
+    # one compiled query per (environment, text), re-applied to every later document: a traversal
+    # abandoned by an earlier JSONPathRecursionError must leave nothing behind
+    c = _COMPILED.get((id(env), q))
+    if c is None:
+        c = _COMPILED[(id(env), q)] = env.compile(q)
 
     def one():
         def go():
             try:
-                return ("done", len(c.find(doc)))
+                return ("done", tuple(tuple(n.location) for n in c.find(doc)))
             except jp.JSONPathRecursionError:
                 return ("raised", "JSONPathRecursionError")
             except RecursionError:
@@ -71,6 +80,25 @@ def outcome(jp, env, q, doc, nondet, cap=400):
         return {one()}
     results, _complete, _runs = chooser.explore(jp, one, cap=cap)
     return set(results)
+
+
+def expected_wild(g):
+    """The locations '$..*' must return in deterministic mode, from the model's visit order `out`
+    (paths of child positions) and the graph."""
+    kids, obj, root = g["kids"], g["obj"], g["root"]
+
+    def key(node, pos):
+        return ("a" if pos == 0 else f"k{pos}") if obj[node - 1] else pos
+
+    res = []
+    for p in g["out"]:
+        node, loc = root, []
+        for pos in p:
+            loc.append(key(node, pos - 1))
+            node = kids[node - 1][pos - 1]
+        for i in range(len(kids[node - 1])):
+            res.append(tuple(loc + [key(node, i)]))
+    return tuple(res)
 
 
 def chain(depth: int, shape: int, bottom: int):
@@ -164,7 +192,9 @@ def run(chk: core.Check, tier: str, seed: int) -> None:
     if len(terminal) < 50:
         raise core.MachineryError(f"only {len(terminal)} terminal cases exported")
     envs = {}
-    for (gkey, limit, mode), g in terminal.items():
+    order = list(terminal.items())
+    rng.shuffle(order)
+    for (gkey, limit, mode), g in order:
         doc = materialise(g)
         env = envs.setdefault((limit, mode), probes.make_env(jp, [], [], nondeterministic=(mode == "rnd"), max_depth=limit))
         for q in (QUERIES if tier != "quick" else QUERIES[:2] + [rng.choice(QUERIES[2:])]):
@@ -173,6 +203,12 @@ def run(chk: core.Check, tier: str, seed: int) -> None:
             kinds = {o[0] for o in got}
             if g["status"] == "raised":
                 chk.nontrivial.add((gkey, limit, mode, q))
+            if kinds == {"done"} and g["status"] == "done" and mode == "det" and q == "$..*":
+                want = expected_wild(g)
+                if any(o[1] != want for o in got):
+                    chk.violation({"clause": "deterministic result differs from the traversal model", "mode": mode},
+                                  {"graph": {"kids": g["kids"], "obj": g["obj"], "cont": g["cont"]}, "limit": limit, "query": q,
+                                   "expected": [list(x) for x in want], "observed": sorted(map(str, got))[:3]})
             if kinds != {g["status"]}:
                 chk.violation({"clause": "outcome differs from the traversal model", "mode": mode, "expected": g["status"],
                                "observed": sorted(kinds)},
@@ -195,7 +231,7 @@ def run(chk: core.Check, tier: str, seed: int) -> None:
                     for bottom in (0, 1, 2):
                         doc, spine, leaf = chain(depth, shape, bottom)
                         assert nesting(doc) == depth, (depth, shape, bottom, nesting(doc))
-                        q = rng.choice(QUERIES)
+                        q = rng.choice(QUERIES + PREFIXED)
                         rec = {"op": "depth", "q": core.enc_text(q), "spine": spine, "leaf": leaf, "limit": lim, "mode": mode,
                                "nesting": depth}
                         c = env.compile(q)
